@@ -400,6 +400,14 @@ let check_chess line f =
       (match parse_model f1 with
        | Some b -> cmp_line "FPP" line [("spec:accepted-board-is-playable", "1", b01 (api_spec_playable (api_abs b)))]
        | None -> cmp_line "FPP" line [("spec:accepted-board-is-playable", "1", "model-rejects:" ^ f1)])
+  | ["FR"; h; tag] ->
+    (* the text was assembled by the harness from a board reached by legal play: canonical by construction (checked against the
+       model writer), so the parser must accept it *)
+    let canon = (match api_parse_fen_t (bytes_of_hex h) with
+        | Ret (POk b) -> b01 (api_write_fen b = bytes_of_hex h)
+        | _ -> "model-rejects") in
+    cmp_line "FR" line [("model:text of a reached position is canonical for the model", "1", canon);
+                        ("spec:canonical FEN of a position reached by legal play is accepted", "OK", tag)]
   | ["BL"; ops; flags; tag; f1; zob; pinned; checkers; mz] ->
     let opl = List.filter (fun x -> x <> "") (String.split_on_char ' ' ops) in
     let col i = if i = 0 then White else Black in
@@ -660,7 +668,7 @@ let dispatch line =
   | ("TX" | "TS" | "TM" | "PU" | "PS" | "PF" | "PD" | "PN" | "IT") :: _ -> check_text line f
   | ("AB" | "AS") :: _ -> check_abi line f
   | "TR" :: _ -> check_tr line f
-  | ("PO" | "MV" | "CK" | "LG" | "FP" | "BL") :: _ -> check_chess line f
+  | ("PO" | "MV" | "CK" | "LG" | "FP" | "FR" | "BL") :: _ -> check_chess line f
   | ("BK" | "BKS") :: _ -> check_book line f
   | "WK" :: _ -> bump "WK" 0
   | "GI" :: _ -> check_gi line f
